@@ -752,7 +752,7 @@ class Interp:
                 return vals
             if isinstance(n, ast.Tuple):
                 return tuple(vals)
-            return set(vals)
+            return set(self.dedupe(vals))
         if isinstance(n, ast.Dict):
             d = {}
             for k, v2 in zip(n.keys, n.values):
@@ -764,7 +764,7 @@ class Interp:
         if isinstance(n, (ast.ListComp, ast.SetComp, ast.GeneratorExp)):
             out: list[Any] = []
             self._comp(n.generators, 0, dict(env), fi, lambda e: out.append(self.eval(n.elt, e, fi)))
-            return set(out) if isinstance(n, ast.SetComp) else out
+            return set(self.dedupe(out)) if isinstance(n, ast.SetComp) else out
         if isinstance(n, ast.DictComp):
             dd: dict[Any, Any] = {}
 
@@ -1111,6 +1111,8 @@ class Interp:
             if full in self.native and not callable(self.native[full]):
                 return self.native[full]
             return ModuleRef(full)
+        if isinstance(obj, tuple) and len(obj) == 2 and obj[0] == "builtin" and obj[1] == "dict" and attr == "fromkeys":
+            return lambda keys, value=None: {k: value for k in self.dedupe(self.iterate(keys))}
         if isinstance(obj, (str, bytes, list, dict, set, tuple, frozenset)):
             return ("pymethod", obj, attr)
         if isinstance(obj, OrdInt):
@@ -1278,6 +1280,8 @@ class Interp:
             raise AbsRaise("StopIteration", where)
         if name in ("list", "tuple", "set", "frozenset"):
             seq = list(self.iterate(args[0])) if args else []
+            if name in ("set", "frozenset"):
+                seq = self.dedupe(seq)
             return {"list": list, "tuple": tuple, "set": set, "frozenset": frozenset}[name](seq)
         if name == "sorted":
             seq = list(self.iterate(args[0]))
@@ -1423,6 +1427,27 @@ class Interp:
                 ref = FuncRef(m, attrs)
                 self.call(dec.fi, [ref])
         return attrs
+
+    def dedupe(self, seq: Any) -> list[Any]:
+        """First occurrences under the elements' own equality (what building a set / dict does)."""
+        out: list[Any] = []
+        keys: list[Any] = []
+        for x in seq:
+            if isinstance(x, AObj):
+                try:
+                    k = self.hash_key(x)
+                except AbsRaise:
+                    k = ("id", id(x))
+                if any(k == k2 and self._eq(x, y) for k2, y in zip(keys, out)):
+                    continue
+                keys.append(k)
+                out.append(x)
+            else:
+                if any(not isinstance(y, AObj) and x == y for y in out):
+                    continue
+                keys.append(None)
+                out.append(x)
+        return out
 
     def hash_key(self, v: Any) -> Any:
         """Canonical key standing for hash(v): equal keys <=> equal hashes (up to collisions)."""
